@@ -297,6 +297,26 @@ fn main() {
     engine_main("mbuilder", |ctx| {
         if let Some(r) = &ctx.args.replay {
             let v: Value = serde_json::from_str(r).unwrap();
+            if v["mode"] == "misuse" {
+                let env: Vec<(usize, usize)> = v["wrong_lengths"].as_array().unwrap().iter().map(|e| (e["slot"].as_u64().unwrap() as usize, e["len"].as_u64().unwrap() as usize)).collect();
+                let seq: Vec<misuse::Op> = v["ops"].as_array().unwrap().iter().map(misuse::op_parse).collect();
+                match guarded(|| misuse::run(&env, &seq)) {
+                    Ok(Ok(_)) => {}
+                    Ok(Err((sig, d))) => ctx.with(|s| s.violate("C17", &sig, v.clone(), d)),
+                    Err(p) => ctx.with(|s| s.violate("C17", "panic", v.clone(), p)),
+                }
+                return;
+            }
+            if v["mode"] == "routing" {
+                let d = routing::desc_parse(&v["model"]);
+                let r = guarded(|| if v["scalar"] == "f32" { routing::check::<f32>(&d) } else { routing::check::<f64>(&d) });
+                match r {
+                    Ok(Ok(())) => {}
+                    Ok(Err(m)) => ctx.with(|s| s.violate("C16", "routing", v.clone(), m)),
+                    Err(p) => ctx.with(|s| s.violate("C16", "panic", v.clone(), p)),
+                }
+                return;
+            }
             let w = word_parse(&v["word"]);
             let mut t = Tally { words: 0, calls: 0, accepted: 0, valid_ref: 0, kinds: Default::default() };
             check_word(&ctx, &w, &mut t, v["mode"].as_str().unwrap_or("words"));
@@ -308,7 +328,591 @@ fn main() {
         match mode.as_str() {
             "words" => mode_words(&ctx),
             "edits" => mode_edits(&ctx),
+            "routing" => mode_routing(&ctx),
+            "misuse" => mode_misuse(&ctx),
             m => panic!("unknown mode {}", m),
         }
+    });
+}
+
+// =================================================================================================
+// C16 – routing by name, placement by index  (mode routing)
+mod routing {
+    use super::*;
+    use nalgebra::DVector;
+    use varpro::model::builder::SeparableModelBuilder;
+    use varpro::model::SeparableModel;
+    use varpro::prelude::SeparableNonlinearModel;
+    use vpmc::num::Sc;
+
+    pub const N: usize = 12;
+
+    fn encode<T: Sc>(x: &DVector<T>, args: &[T], tag: f64) -> DVector<T> {
+        let mut out = x.clone();
+        for (t, a) in args.iter().enumerate() {
+            out[t] = *a;
+        }
+        out[args.len()] = T::f(tag);
+        out
+    }
+
+    macro_rules! tagged {
+        ($tag:expr; $($p:ident),+) => {{ let tag = $tag; move |x: &DVector<T>, $($p: T),+| encode::<T>(x, &[$($p),+], tag) }};
+    }
+    macro_rules! by_arity {
+        ($ar:expr, $tag:expr, $apply:expr) => {
+            match $ar {
+                1 => $apply(tagged!($tag; a)),
+                2 => $apply(tagged!($tag; a, b)),
+                3 => $apply(tagged!($tag; a, b, c)),
+                4 => $apply(tagged!($tag; a, b, c, d)),
+                5 => $apply(tagged!($tag; a, b, c, d, e)),
+                6 => $apply(tagged!($tag; a, b, c, d, e, f)),
+                7 => $apply(tagged!($tag; a, b, c, d, e, f, g)),
+                8 => $apply(tagged!($tag; a, b, c, d, e, f, g, h)),
+                9 => $apply(tagged!($tag; a, b, c, d, e, f, g, h, i)),
+                10 => $apply(tagged!($tag; a, b, c, d, e, f, g, h, i, j)),
+                _ => unreachable!(),
+            }
+        };
+    }
+
+    /// one function of the model under test: None = invariant function
+    #[derive(Debug, Clone)]
+    pub struct Func {
+        /// declared parameter names in the function's own order (indices into the model list)
+        pub params: Vec<usize>,
+        /// order in which the derivatives are supplied (positions within `params`)
+        pub deriv_order: Vec<usize>,
+    }
+    #[derive(Debug, Clone)]
+    pub struct ModelDesc {
+        pub names: Vec<String>,
+        pub funcs: Vec<Option<Func>>,
+    }
+    pub fn desc_json(d: &ModelDesc) -> Value {
+        json!({"model_parameters": d.names, "functions": d.funcs.iter().map(|f| match f { None => json!("invariant"), Some(f) => json!({"params": f.params.iter().map(|&k| d.names[k].clone()).collect::<Vec<_>>(), "deriv_order": f.deriv_order.iter().map(|&q| d.names[f.params[q]].clone()).collect::<Vec<_>>()}) }).collect::<Vec<_>>() })
+    }
+    pub fn desc_parse(v: &Value) -> ModelDesc {
+        let names: Vec<String> = v["model_parameters"].as_array().unwrap().iter().map(|s| s.as_str().unwrap().to_string()).collect();
+        let idx = |s: &str| names.iter().position(|n| n == s).unwrap();
+        let funcs = v["functions"]
+            .as_array()
+            .unwrap()
+            .iter()
+            .map(|f| {
+                if f == "invariant" {
+                    None
+                } else {
+                    let params: Vec<usize> = f["params"].as_array().unwrap().iter().map(|s| idx(s.as_str().unwrap())).collect();
+                    let deriv_order = f["deriv_order"].as_array().unwrap().iter().map(|s| params.iter().position(|&k| k == idx(s.as_str().unwrap())).unwrap()).collect();
+                    Some(Func { params, deriv_order })
+                }
+            })
+            .collect();
+        ModelDesc { names, funcs }
+    }
+
+    fn value_of(k: usize) -> f64 {
+        3.0 + 2.0 * k as f64
+    }
+    fn xvec<T: Sc>() -> DVector<T> {
+        DVector::from_fn(N, |i, _| T::f(500.0 + i as f64))
+    }
+
+    pub fn build<T: Sc>(d: &ModelDesc) -> Result<SeparableModel<T>, String> {
+        let mut b = SeparableModelBuilder::<T>::new(&d.names);
+        for (j, f) in d.funcs.iter().enumerate() {
+            match f {
+                None => {
+                    let tag = 1000.0 + j as f64;
+                    b = b.invariant_function(move |x: &DVector<T>| encode::<T>(x, &[], tag));
+                }
+                Some(f) => {
+                    let names: Vec<String> = f.params.iter().map(|&k| d.names[k].clone()).collect();
+                    let ar = f.params.len();
+                    b = by_arity!(ar, 1000.0 + j as f64, |c| b.function(&names, c));
+                    for &q in &f.deriv_order {
+                        let tag = 2000.0 + 100.0 * j as f64 + q as f64;
+                        let nm = names[q].clone();
+                        b = by_arity!(ar, tag, |c| b.partial_deriv(nm, c));
+                    }
+                }
+            }
+        }
+        let init: Vec<T> = (0..d.names.len()).map(|k| T::f(1.0 + k as f64)).collect();
+        b.independent_variable(xvec::<T>()).initial_parameters(init).build().map_err(|e| format!("{:?}", e))
+    }
+
+    /// returns a description of the first discrepancy
+    pub fn check<T: Sc>(d: &ModelDesc) -> Result<(), String> {
+        let mut m = build::<T>(d).map_err(|e| format!("valid model rejected: {}", e))?;
+        let p = d.names.len();
+        if m.parameters() != d.names.as_slice() {
+            return Err(format!("parameters() = {:?}, model order is {:?}", m.parameters(), d.names));
+        }
+        let vals: Vec<T> = (0..p).map(|k| T::f(value_of(k))).collect();
+        m.set_params(DVector::from_vec(vals.clone())).map_err(|e| format!("set_params failed: {:?}", e))?;
+        let got = m.params();
+        if got.len() != p || (0..p).any(|k| got[k].bits() != vals[k].bits()) {
+            return Err(format!("params() = {:?} after set_params({:?})", got.as_slice(), vals));
+        }
+        let x = xvec::<T>();
+        let phi = m.eval().map_err(|e| format!("eval failed: {:?}", e))?;
+        if phi.nrows() != N || phi.ncols() != d.funcs.len() {
+            return Err(format!("eval() is {}x{}, expected {}x{}", phi.nrows(), phi.ncols(), N, d.funcs.len()));
+        }
+        for (j, f) in d.funcs.iter().enumerate() {
+            let args: Vec<T> = f.as_ref().map(|f| f.params.iter().map(|&k| vals[k]).collect()).unwrap_or_default();
+            let want = encode::<T>(&x, &args, 1000.0 + j as f64);
+            for i in 0..N {
+                if phi[(i, j)].bits() != want[i].bits() {
+                    return Err(format!("eval() column {} row {}: got {}, expected {} (function {} must receive {:?} = values of its declared parameters in its own order)", j, i, phi[(i, j)], want[i], j, args));
+                }
+            }
+        }
+        for k in 0..p {
+            let dm = m.eval_partial_deriv(k).map_err(|e| format!("eval_partial_deriv({}) failed: {:?}", k, e))?;
+            if dm.nrows() != N || dm.ncols() != d.funcs.len() {
+                return Err(format!("eval_partial_deriv({}) is {}x{}", k, dm.nrows(), dm.ncols()));
+            }
+            for (j, f) in d.funcs.iter().enumerate() {
+                let pos = f.as_ref().and_then(|f| f.params.iter().position(|&kk| kk == k));
+                match pos {
+                    None => {
+                        for i in 0..N {
+                            if dm[(i, j)].bits() != T::f(0.0).bits() {
+                                return Err(format!("d/d{} column {} row {} = {} but function {} does not depend on {}", d.names[k], j, i, dm[(i, j)], j, d.names[k]));
+                            }
+                        }
+                    }
+                    Some(q) => {
+                        let f = f.as_ref().unwrap();
+                        let args: Vec<T> = f.params.iter().map(|&kk| vals[kk]).collect();
+                        let want = encode::<T>(&x, &args, 2000.0 + 100.0 * j as f64 + q as f64);
+                        for i in 0..N {
+                            if dm[(i, j)].bits() != want[i].bits() {
+                                return Err(format!("d/d{} column {} row {}: got {}, expected {} (the derivative registered for '{}' of function {}, called with {:?})", d.names[k], j, i, dm[(i, j)], want[i], d.names[k], j, args));
+                            }
+                        }
+                    }
+                }
+            }
+        }
+        Ok(())
+    }
+
+    fn permutations(n: usize) -> Vec<Vec<usize>> {
+        if n == 0 {
+            return vec![vec![]];
+        }
+        let mut out = vec![];
+        for p in permutations(n - 1) {
+            for pos in 0..=p.len() {
+                let mut q = p.clone();
+                q.insert(pos, n - 1);
+                out.push(q);
+            }
+        }
+        out
+    }
+    /// all ordered subsets of size 1..=kmax of 0..n
+    fn ordered_subsets(n: usize, kmax: usize) -> Vec<Vec<usize>> {
+        let mut out: Vec<Vec<usize>> = vec![];
+        let mut frontier: Vec<Vec<usize>> = vec![vec![]];
+        for _ in 0..kmax {
+            let mut next = vec![];
+            for s in &frontier {
+                for e in 0..n {
+                    if !s.contains(&e) {
+                        let mut t = s.clone();
+                        t.push(e);
+                        next.push(t);
+                    }
+                }
+            }
+            out.extend(next.iter().cloned());
+            frontier = next;
+        }
+        out
+    }
+
+    /// fill up with single-parameter functions so that every model parameter is used
+    fn complete(names: &[String], mut funcs: Vec<Option<Func>>) -> Vec<Option<Func>> {
+        for k in 0..names.len() {
+            if !funcs.iter().any(|f| f.as_ref().map(|f| f.params.contains(&k)).unwrap_or(false)) {
+                funcs.push(Some(Func { params: vec![k], deriv_order: vec![0] }));
+            }
+        }
+        funcs
+    }
+
+    pub fn enumerate(thorough: bool, mut visit: impl FnMut(ModelDesc)) {
+        let letters = ["a", "b", "c", "d"];
+        for np in [3usize, 4] {
+            for perm in permutations(np) {
+                let names: Vec<String> = perm.iter().map(|&i| letters[i].to_string()).collect();
+                let subsets = ordered_subsets(np, np);
+                for s in &subsets {
+                    let orders = permutations(s.len());
+                    for (oi, ord) in orders.iter().enumerate() {
+                        if !thorough && s.len() == 4 && oi % 5 != 0 {
+                            continue;
+                        }
+                        // the tagged function in every position relative to an invariant function
+                        for inv_pos in 0..3usize {
+                            if inv_pos > 0 && (oi != 0 && !thorough) {
+                                continue;
+                            }
+                            let mut funcs = vec![Some(Func { params: s.clone(), deriv_order: ord.clone() })];
+                            funcs = complete(&names, funcs);
+                            match inv_pos {
+                                1 => funcs.insert(0, None),
+                                2 => funcs.push(None),
+                                _ => {}
+                            }
+                            visit(ModelDesc { names: names.clone(), funcs });
+                        }
+                    }
+                }
+                // pairs of functions (shared and disjoint parameters), derivative order identity / reversed
+                if thorough || np == 3 {
+                    for s1 in &subsets {
+                        for s2 in &subsets {
+                            if !thorough && (s1.len() + s2.len()) % 2 == 0 {
+                                continue;
+                            }
+                            let o1: Vec<usize> = (0..s1.len()).rev().collect();
+                            let o2: Vec<usize> = (0..s2.len()).collect();
+                            let funcs = complete(&names, vec![Some(Func { params: s1.clone(), deriv_order: o1 }), None, Some(Func { params: s2.clone(), deriv_order: o2 })]);
+                            visit(ModelDesc { names: names.clone(), funcs });
+                        }
+                    }
+                }
+            }
+        }
+        // arity 5..10 on a 10-parameter model: rotations and transpositions of the identity assignment
+        let names10: Vec<String> = (0..10).map(|k| format!("q{}", k)).collect();
+        for model_rot in [0usize, 3, 7] {
+            let names: Vec<String> = (0..10).map(|k| names10[(k + model_rot) % 10].clone()).collect();
+            for ar in 5..=10usize {
+                let mut assigns: Vec<Vec<usize>> = vec![];
+                for r in 0..10 {
+                    assigns.push((0..ar).map(|t| (t + r) % 10).collect());
+                }
+                for i in 0..ar {
+                    for j in (i + 1)..ar {
+                        let mut a: Vec<usize> = (0..ar).collect();
+                        a.swap(i, j);
+                        assigns.push(a);
+                        let mut b: Vec<usize> = (0..ar).map(|t| (t * 3 + 1) % 10).collect(); // a scattered assignment (3 is coprime to 10)
+                        b.swap(i, j);
+                        assigns.push(b);
+                    }
+                }
+                assigns.push((0..ar).rev().collect());
+                for a in assigns {
+                    for ord_kind in 0..3usize {
+                        if !thorough && ord_kind == 2 {
+                            continue;
+                        }
+                        let ord: Vec<usize> = match ord_kind {
+                            0 => (0..ar).collect(),
+                            1 => (0..ar).rev().collect(),
+                            _ => (0..ar).map(|t| (t + ar / 2) % ar).collect(),
+                        };
+                        let funcs = complete(&names, vec![None, Some(Func { params: a.clone(), deriv_order: ord })]);
+                        visit(ModelDesc { names: names.clone(), funcs });
+                    }
+                }
+            }
+        }
+    }
+}
+
+pub fn mode_routing(ctx: &Arc<Ctx>) {
+    let mut idx = 0u64;
+    let mut n = 0u64;
+    let mut by_arity: std::collections::BTreeMap<usize, u64> = Default::default();
+    routing::enumerate(ctx.args.thorough(), |d| {
+        let mine = ctx.args.mine(idx);
+        idx += 1;
+        if !mine {
+            return;
+        }
+        ctx.begin(idx);
+        for f32_ in [false, true] {
+            let r = guarded(|| if f32_ { routing::check::<f32>(&d) } else { routing::check::<f64>(&d) });
+            n += 1;
+            let msg = match r {
+                Ok(Ok(())) => None,
+                Ok(Err(m)) => Some(("routing".to_string(), m)),
+                Err(p) => Some(("panic".to_string(), format!("panicked: {}", p))),
+            };
+            if let Some((sig, m)) = msg {
+                let arity = d.funcs.iter().filter_map(|f| f.as_ref().map(|f| f.params.len())).max().unwrap_or(0);
+                ctx.with(|s| s.violate("C16", &format!("{}:max-arity-{}", sig, arity), json!({"mode": "routing", "scalar": if f32_ {"f32"} else {"f64"}, "model": routing::desc_json(&d)}), m));
+            }
+        }
+        for f in d.funcs.iter().flatten() {
+            *by_arity.entry(f.params.len()).or_insert(0) += 1;
+        }
+        if idx % 5000 == 1 {
+            ctx.with(|s| s.sample(routing::desc_json(&d)));
+        }
+    });
+    ctx.with(|s| {
+        s.add("evaluations", n);
+        s.add("distinct_nontrivial", n);
+        for (a, c) in by_arity {
+            *s.hist.entry("functions_by_arity".into()).or_default().entry(format!("{:02}", a)).or_insert(0) += c;
+        }
+    });
+}
+
+// =================================================================================================
+// C17 – misuse of builder-made models is reported as errors and leaves the state intact (mode misuse)
+mod misuse {
+    use super::*;
+    use nalgebra::{DMatrix, DVector};
+    use std::sync::atomic::{AtomicUsize, Ordering};
+    use varpro::model::builder::SeparableModelBuilder;
+    use varpro::model::errors::ModelError;
+    use varpro::model::SeparableModel;
+    use varpro::prelude::SeparableNonlinearModel;
+
+    pub const N: usize = 4;
+    pub const P: usize = 2;
+    pub const GOOD: usize = usize::MAX;
+    /// slots: 0 f0, 1 f1, 2 f2(invariant), 3 d f0/da, 4 d f1/db, 5 d f1/da
+    pub struct Env {
+        pub bad: [AtomicUsize; 6],
+    }
+    fn out(env: &Env, slot: usize, v: DVector<f64>) -> DVector<f64> {
+        let l = env.bad[slot].load(Ordering::Relaxed);
+        if l == GOOD {
+            v
+        } else {
+            DVector::from_element(l, 7.0)
+        }
+    }
+    fn xv() -> DVector<f64> {
+        DVector::from_vec(vec![1.0, 2.0, 3.0, 4.0])
+    }
+    pub fn build(env: Arc<Env>) -> SeparableModel<f64> {
+        let (e0, e1, e2, e3, e4, e5) = (env.clone(), env.clone(), env.clone(), env.clone(), env.clone(), env.clone());
+        SeparableModelBuilder::<f64>::new(["a", "b"])
+            .function(["a"], move |x: &DVector<f64>, a: f64| out(&e0, 0, x.map(|v| v * a)))
+            .partial_deriv("a", move |x: &DVector<f64>, _a: f64| out(&e3, 3, x.clone()))
+            .function(["b", "a"], move |x: &DVector<f64>, b: f64, a: f64| out(&e1, 1, x.map(|v| v * b + a)))
+            .partial_deriv("b", move |x: &DVector<f64>, _b: f64, _a: f64| out(&e4, 4, x.clone()))
+            .partial_deriv("a", move |x: &DVector<f64>, _b: f64, _a: f64| out(&e5, 5, x.map(|_| 1.0)))
+            .invariant_function(move |x: &DVector<f64>| out(&e2, 2, x.map(|_| 1.0)))
+            .independent_variable(xv())
+            .initial_parameters(vec![2.0, 5.0])
+            .build()
+            .expect("misuse model builds")
+    }
+    fn ref_eval(a: &[f64]) -> DMatrix<f64> {
+        let x = xv();
+        DMatrix::from_fn(N, 3, |i, j| match j {
+            0 => x[i] * a[0],
+            1 => x[i] * a[1] + a[0],
+            _ => 1.0,
+        })
+    }
+    fn ref_deriv(k: usize) -> DMatrix<f64> {
+        let x = xv();
+        DMatrix::from_fn(N, 3, |i, j| match (k, j) {
+            (0, 0) => x[i],
+            (0, 1) => 1.0,
+            (1, 1) => x[i],
+            _ => 0.0,
+        })
+    }
+
+    #[derive(Debug, Clone, Copy, PartialEq)]
+    pub enum Op {
+        Set(usize),
+        SetBad(usize),
+        Eval,
+        D(usize),
+    }
+    pub fn ops() -> Vec<Op> {
+        vec![Op::Eval, Op::D(0), Op::D(1), Op::Set(0), Op::Set(1), Op::SetBad(0), Op::SetBad(1), Op::SetBad(3), Op::SetBad(4), Op::D(2), Op::D(3), Op::D(usize::MAX)]
+    }
+    pub const ALPHAS: [[f64; 2]; 2] = [[3.0, 7.0], [-1.5, 0.25]];
+
+    pub fn op_json(o: &Op) -> Value {
+        match o {
+            Op::Set(i) => json!({"set_params": ALPHAS[*i]}),
+            Op::SetBad(l) => json!({"set_params_len": l}),
+            Op::Eval => json!("eval"),
+            Op::D(k) => json!({"eval_partial_deriv": if *k == usize::MAX { json!("usize::MAX") } else { json!(k) }}),
+        }
+    }
+    pub fn op_parse(v: &Value) -> Op {
+        if v == "eval" {
+            return Op::Eval;
+        }
+        if let Some(a) = v.get("set_params") {
+            let a0 = a[0].as_f64().unwrap();
+            return Op::Set(if a0 == ALPHAS[0][0] { 0 } else { 1 });
+        }
+        if let Some(l) = v.get("set_params_len") {
+            return Op::SetBad(l.as_u64().unwrap() as usize);
+        }
+        let k = &v["eval_partial_deriv"];
+        Op::D(if k == "usize::MAX" { usize::MAX } else { k.as_u64().unwrap() as usize })
+    }
+
+    /// runs one op sequence under one environment; returns the first discrepancy
+    pub fn run(bad: &[(usize, usize)], seq: &[Op]) -> Result<u64, (String, String)> {
+        let env = Arc::new(Env { bad: Default::default() });
+        for s in 0..6 {
+            env.bad[s].store(GOOD, Ordering::Relaxed);
+        }
+        let mut m = build(env.clone());
+        for (slot, len) in bad {
+            env.bad[*slot].store(*len, Ordering::Relaxed);
+        }
+        let badlen = |slot: usize| bad.iter().find(|(s, _)| *s == slot).map(|(_, l)| *l);
+        let mut cur = vec![2.0, 5.0];
+        let mut steps = 0u64;
+        for (si, op) in seq.iter().enumerate() {
+            steps += 1;
+            let at = format!("step {} ({:?})", si, op);
+            match op {
+                Op::Set(i) => {
+                    if let Err(e) = m.set_params(DVector::from_vec(ALPHAS[*i].to_vec())) {
+                        return Err(("valid-set-params-rejected".into(), format!("{}: {:?}", at, e)));
+                    }
+                    cur = ALPHAS[*i].to_vec();
+                }
+                Op::SetBad(l) => match m.set_params(DVector::from_element(*l, 9.0)) {
+                    Ok(()) => return Err(("wrong-parameter-count-accepted".into(), format!("{}: set_params with {} values on a model with {} parameters returned Ok", at, l, P))),
+                    Err(ModelError::IncorrectParameterCount { expected, actual }) if expected == P && actual == *l => {}
+                    Err(e) => return Err(("wrong-error-for-parameter-count".into(), format!("{}: {:?}", at, e))),
+                },
+                Op::Eval => {
+                    let bads: Vec<usize> = (0..3).filter_map(|s| badlen(s)).collect();
+                    match m.eval() {
+                        Ok(mat) => {
+                            if !bads.is_empty() {
+                                return Err(("mis-shaped-output-accepted".into(), format!("{}: basis functions returned vectors of length {:?} instead of {} but eval() returned Ok({}x{})", at, bads, N, mat.nrows(), mat.ncols())));
+                            }
+                            let want = ref_eval(&cur);
+                            if mat.nrows() != N || mat.ncols() != 3 || mat.iter().zip(want.iter()).any(|(a, b)| a.to_bits() != b.to_bits()) {
+                                return Err(("evaluation-changed".into(), format!("{}: eval() = {:?}, expected {:?} for parameters {:?}", at, mat.as_slice(), want.as_slice(), cur)));
+                            }
+                        }
+                        Err(ModelError::UnexpectedFunctionOutput { expected_length, actual_length }) if !bads.is_empty() && expected_length == N && bads.contains(&actual_length) => {}
+                        Err(e) => return Err((if bads.is_empty() { "valid-eval-rejected" } else { "wrong-error-for-output-length" }.into(), format!("{}: {:?} (bad lengths {:?})", at, e, bads))),
+                    }
+                }
+                Op::D(k) => {
+                    let slots: Vec<usize> = match k {
+                        0 => vec![3, 5],
+                        1 => vec![4],
+                        _ => vec![],
+                    };
+                    let bads: Vec<usize> = slots.iter().filter_map(|s| badlen(*s)).collect();
+                    match m.eval_partial_deriv(*k) {
+                        Ok(mat) => {
+                            if *k >= P {
+                                return Err(("derivative-index-out-of-range-accepted".into(), format!("{}: returned Ok", at)));
+                            }
+                            if !bads.is_empty() {
+                                return Err(("mis-shaped-output-accepted".into(), format!("{}: derivatives returned vectors of length {:?} instead of {} but the call returned Ok", at, bads, N)));
+                            }
+                            let want = ref_deriv(*k);
+                            if mat.nrows() != N || mat.ncols() != 3 || mat.iter().zip(want.iter()).any(|(a, b)| a.to_bits() != b.to_bits()) {
+                                return Err(("evaluation-changed".into(), format!("{}: derivative = {:?}, expected {:?}", at, mat.as_slice(), want.as_slice())));
+                            }
+                        }
+                        Err(ModelError::DerivativeIndexOutOfBounds { index }) if *k >= P && index == *k => {}
+                        Err(ModelError::UnexpectedFunctionOutput { expected_length, actual_length }) if *k < P && !bads.is_empty() && expected_length == N && bads.contains(&actual_length) => {}
+                        Err(e) => return Err(("wrong-error-for-derivative".into(), format!("{}: {:?} (index {}, bad lengths {:?})", at, e, k, bads))),
+                    }
+                }
+            }
+            // state intact: params() is the last accepted vector
+            let p = m.params();
+            if p.len() != P || p[0].to_bits() != cur[0].to_bits() || p[1].to_bits() != cur[1].to_bits() {
+                return Err(("parameters-changed-by-rejected-call".into(), format!("{}: params() = {:?}, last accepted {:?}", at, p.as_slice(), cur)));
+            }
+        }
+        Ok(steps)
+    }
+
+    pub fn environments() -> Vec<Vec<(usize, usize)>> {
+        let lens = [0usize, N - 1, N + 1, 2 * N];
+        let mut v: Vec<Vec<(usize, usize)>> = vec![vec![]];
+        for s in 0..6 {
+            for l in lens {
+                v.push(vec![(s, l)]);
+            }
+        }
+        // two cooperating wrong lengths (totals that cancel, and arbitrary pairs)
+        for s1 in 0..6 {
+            for s2 in (s1 + 1)..6 {
+                for (l1, l2) in [(N - 1, N + 1), (N + 1, N - 1), (0, 2 * N), (2 * N, 0)] {
+                    v.push(vec![(s1, l1), (s2, l2)]);
+                }
+            }
+        }
+        // three at once: (0,0,3N) and (3N,0,0)
+        v.push(vec![(0, 0), (1, 0), (2, 3 * N)]);
+        v.push(vec![(0, 3 * N), (1, 0), (2, 0)]);
+        v
+    }
+}
+
+pub fn mode_misuse(ctx: &Arc<Ctx>) {
+    let depth: usize = ctx.args.extra.get("depth").map(|s| s.parse().unwrap()).unwrap_or(if ctx.args.thorough() { 4 } else { 3 });
+    let ops = misuse::ops();
+    let envs = misuse::environments();
+    let mut idx = 0u64;
+    let (mut seqs, mut steps) = (0u64, 0u64);
+    for env in &envs {
+        for len in 1..=depth {
+            let total = (ops.len() as u64).pow(len as u32);
+            let mut start = 0u64;
+            while start < total {
+                let end = (start + 2048).min(total);
+                let mine = ctx.args.mine(idx);
+                idx += 1;
+                if mine {
+                    ctx.begin(idx);
+                    for mut k in start..end {
+                        let mut seq = vec![misuse::Op::Eval; len];
+                        for i in (0..len).rev() {
+                            seq[i] = ops[(k % ops.len() as u64) as usize];
+                            k /= ops.len() as u64;
+                        }
+                        seqs += 1;
+                        let r = guarded(|| misuse::run(env, &seq));
+                        let case = || json!({"mode": "misuse", "wrong_lengths": env.iter().map(|(s, l)| json!({"slot": s, "len": l})).collect::<Vec<_>>(), "ops": seq.iter().map(misuse::op_json).collect::<Vec<_>>()});
+                        match r {
+                            Ok(Ok(n)) => steps += n,
+                            Ok(Err((sig, d))) => ctx.with(|s| s.violate("C17", &sig, case(), d)),
+                            Err(p) => ctx.with(|s| s.violate("C17", "panic", case(), format!("panicked: {}", p))),
+                        }
+                        if seqs % 50_000 == 7 {
+                            ctx.with(|s| s.sample(case()));
+                        }
+                    }
+                }
+                start = end;
+            }
+        }
+    }
+    ctx.with(|s| {
+        s.add("transitions", steps);
+        s.add("evaluations", seqs);
+        s.add("traces_validated", seqs);
+        s.add("distinct_nontrivial", seqs);
+        s.add("states", 3); // reference states: last accepted parameter vector in {initial, alpha1, alpha2}
+        s.maxes.insert("depth_completed".into(), depth as f64);
     });
 }
